@@ -158,6 +158,19 @@ func (s *FcSrv) Reinterp(src string) srvResp {
 	return r
 }
 
+// Resolve: updateResolver(newResolver(), rels) then resolveType(ty); types in the hook's prefix notation
+// (int | str | bool | v:<name> | sl t | tu:<n> t... | fn:<n> t...). The resolved type is in Fmt.
+func (s *FcSrv) Resolve(rels [][2]string, ty string) srvResp {
+	var rs []map[string]string
+	for _, r := range rels {
+		rs = append(rs, map[string]string{"v": r[0], "t": r[1]})
+	}
+	r := s.call(map[string]any{"op": "resolve", "rels": rs, "ty": ty})
+	d, _ := hex.DecodeString(r.Fmt)
+	r.Fmt = string(d)
+	return r
+}
+
 func (s *FcSrv) Tables() srvResp { return s.call(map[string]any{"op": "tables"}) }
 
 // FcPool: n servers for parallel use.
